@@ -13,6 +13,7 @@ from hypothesis import strategies as st
 
 from vlib import events as E
 from vlib import harness as H
+from vlib import refmodel as R
 from vlib.core import Result, Sub, V
 
 LEVEL = "exploration"
@@ -27,9 +28,11 @@ IDS = [("%02x" % i) * 32 for i in range(1, 13)]
 
 @st.composite
 def st_history(draw, maxn):
+    """items are events, or ["view", id] (a lookup by id, as GET /e/<id> or a duplicate check does)"""
     n = draw(st.integers(3, maxn))
     hist = []
     used = []
+    evs = []
     for i in range(n):
         eid = IDS[i % len(IDS)]
         a = draw(st.sampled_from(AUTH))
@@ -37,7 +40,7 @@ def st_history(draw, maxn):
         if used and draw(st.integers(0, 2)) == 0:
             tags = []
             for _ in range(draw(st.integers(1, 4))):
-                k = draw(st.integers(0, 11))
+                k = draw(st.integers(0, 13))
                 tgt = draw(st.sampled_from(used))
                 if k <= 6:
                     tags.append(["e", tgt])
@@ -49,13 +52,28 @@ def st_history(draw, maxn):
                     tags.append(["e"])
                 elif k == 10:
                     tags.append(["e", "77" * 32])  # unknown id
+                elif k <= 12:
+                    # NIP-09 coordinate of a replaceable event: kind:pubkey:d (own or foreign)
+                    t = draw(st.sampled_from(evs))
+                    d = next((x[1] for x in t["tags"] if x[0] == "d" and len(x) > 1), "")
+                    tags.append(["a", "%d:%s:%s" % (t["kind"], draw(st.sampled_from([t["pubkey"], a])), d)])
                 else:
                     tags.append(["p", a])
-            hist.append(E.free(eid, a, 5, ts, tags))
+            ev = E.free(eid, a, 5, ts, tags)
         else:
-            hist.append(E.free(eid, a, draw(st.sampled_from([1, 1, 4, 7])), ts,
-                               draw(st.sampled_from([[], [["t", "a"]], [["e", IDS[0]]]]))))
+            kind = draw(st.sampled_from([1, 1, 4, 7, 30000, 10000, 0]))
+            tags = draw(st.sampled_from([[], [["t", "a"]], [["e", IDS[0]]]]))
+            if kind == 30000:
+                tags = tags + [["d", draw(st.sampled_from(["x", "y"]))]]
+            ev = E.free(eid, a, kind, ts, tags)
+        hist.append(ev)
+        evs.append(ev)
         used.append(eid)
+        r = draw(st.integers(0, 9))
+        if r == 0:
+            hist.append(["view", draw(st.sampled_from(used))])
+        elif r == 1:
+            hist.append(dict(draw(st.sampled_from(evs))))  # resubmission
     return hist
 
 
@@ -86,10 +104,24 @@ class Deletion(Sub):
         nt = False
         labels = ["backend:" + backend]
         async with H.Rig(backend, validators=[]) as rig:
+            seen_ids = set()
             for step, ev in enumerate(history):
+                if isinstance(ev, list):
+                    got = await rig.storage.get_event(ev[1])
+                    cur = await rig.dump()
+                    labels.append("view")
+                    if (got is None) != (ev[1] not in cur):
+                        viol.append(V("%s-get-event-disagrees-with-store" % backend,
+                                      "/e/<id> serves exactly the stored events", step=step, id=ev[1],
+                                      served=got is not None))
+                        break
+                    continue
                 before = await rig.dump()
                 ok, reason = await rig.add(ev)
                 after = await rig.dump()
+                if ev["id"] in seen_ids:
+                    labels.append("resubmission")
+                seen_ids.add(ev["id"])
                 removed = [e for i, e in before.items() if i not in after]
                 if ev["kind"] == 5:
                     strict, loose = referenced(ev)
@@ -103,6 +135,13 @@ class Deletion(Sub):
                     strict, loose = set(), set()
                     malformed = False
                 for r in removed:
+                    if R.address(r) is not None and R.address(r) == R.address(ev) and r["created_at"] <= ev["created_at"]:
+                        continue  # replaced by a newer version of its own address (C09's subject)
+                    by_coord = ev["kind"] == 5 and any(
+                        t[0] == "a" and len(t) > 1 and isinstance(t[1], str) and t[1].split(":")[:2] == [str(r["kind"]), r["pubkey"]]
+                        for t in ev["tags"] if t)
+                    if ok and by_coord and r["pubkey"] == ev["pubkey"]:
+                        continue  # deleting one's own replaceable event by coordinate is allowed by NIP-09
                     if not (ok and ev["kind"] == 5 and r["id"] in loose and r["pubkey"] == ev["pubkey"]):
                         why = ("not-a-deletion" if ev["kind"] != 5 else "refused" if not ok else
                                "foreign-author" if r["pubkey"] != ev["pubkey"] else "unreferenced")
